@@ -14,6 +14,7 @@ package main
 import (
 	"fmt"
 	"math"
+	"os"
 	"math/rand"
 	"sort"
 	"strconv"
@@ -121,7 +122,7 @@ func obsKey(name string) string {
 	if name == "length" {
 		return "KLen"
 	}
-	if isCanonDec(name) && len(name) <= 18 {
+	if isCanonDec(name) {
 		return "(KI " + name + ")"
 	}
 	return "(KS " + Cstr(name) + ")"
@@ -292,16 +293,16 @@ func (o Op) JS() string { // an expression, guarded against 2^32-step loops by a
 	switch o.kind {
 	case 's':
 		g := ""
-		if o.k.name == "length" && o.v.k == 'd' {
-			g = fmt.Sprintf("ISARR && R.length-(%s)>5000 ? SKIP : ", o.v.JS())
+		if o.k.name == "length" {
+			g = fmt.Sprintf("ISARR && R.length-Number(%s)>5000 ? SKIP : ", o.v.JS())
 		}
 		return fmt.Sprintf("%sstep(function(){return R[%s]=%s})", g, o.k.JS(), o.v.JS())
 	case 'x':
 		return fmt.Sprintf("step(function(){return delete R[%s]})", o.k.JS())
 	case 'p':
 		g := ""
-		if o.k.name == "length" && o.d.v != nil && o.d.v.k == 'd' {
-			g = fmt.Sprintf("ISARR && R.length-(%s)>5000 ? SKIP : ", o.d.v.JS())
+		if o.k.name == "length" && o.d.v != nil {
+			g = fmt.Sprintf("ISARR && R.length-Number(%s)>5000 ? SKIP : ", o.d.v.JS())
 		}
 		return fmt.Sprintf("%sstep(function(){return Object.defineProperty(R,%s,%s)})", g, o.k.JS(), o.d.JS())
 	case 'f':
@@ -641,7 +642,7 @@ func keyRank(s string) int {
 	if s == "length" {
 		return 0
 	}
-	if isCanonDec(s) && len(s) <= 18 {
+	if isCanonDec(s) {
 		return 1
 	}
 	return 2
@@ -669,7 +670,12 @@ func runScript(src string) Outcome {
 		vm.Interrupt <- func() { panic("c08: script did not terminate in 20 s") }
 	})
 	defer timer.Stop()
-	return RunJS(vm, src)
+	t0 := time.Now()
+	o := RunJS(vm, src)
+	if el := time.Since(t0); el > 2*time.Second && os.Getenv("C08_SLOW") != "" {
+		fmt.Fprintf(os.Stderr, "SLOW %v: %s\n", el, src[len(src)-min(len(src), 400):])
+	}
+	return o
 }
 
 func (g *gen) runHist(r Recv, ops []Op, bucket string) {
